@@ -296,13 +296,19 @@ class _RecordRun:
                     tags.append("origin-feature-outside")   # steps over the origin, not inside the region
                 continue
             if ftype == "CDS_motif":
+                pieces = set(pos)
                 for key in ("leader_location", "tail_location"):
                     if key in quals:
                         extra = set(string_positions(quals[key][0]))
+                        pieces |= extra
                         if not extra <= inside:
                             tags.append("prepeptide-cut")
                         if extra & post_origin or set(pos) & post_origin:
                             tags.append("prepeptide-post-origin")
+                if len(pieces) > len(pos) and pieces & post_origin and pieces - post_origin:
+                    # leader/core/tail of a gene over the origin: Feature.get_sub_location_from_protein_coordinates
+                    # (C09) places them in the wrong order, each piece on its own runs with the strand
+                    tags.append("prepeptide-over-origin")
             # in the coordinates of the linearised region a feature runs in one direction
             relative = [mapping[p] for p in pos]
             if any((b - a) * strand < 0 for a, b in zip(relative, relative[1:])):
@@ -702,8 +708,8 @@ RELEVANT = {
     "region-candidate-refs": ["numbers-not-contiguous", "whole-circle-region"],
     "region-subregion-refs": ["numbers-not-contiguous", "whole-circle-region"],
     "reloads-one-region": _LOADING_TAGS,
-    "reloaded-same-content": _LOADING_TAGS + ["parts-against-strand"],
-    "reloaded-after-ref-repair": _CONTENT_TAGS + ["parts-against-strand"],
+    "reloaded-same-content": _LOADING_TAGS + ["parts-against-strand", "prepeptide-over-origin"],
+    "reloaded-after-ref-repair": _CONTENT_TAGS + ["parts-against-strand", "prepeptide-over-origin"],
     "features-same-bases": ["parts-against-strand", "origin-feature-outside", "whole-circle-region"],
 }
 
@@ -735,7 +741,8 @@ FINDING_CLASSES: dict[str, Any] = {
     "C12-F4": lambda clause, case: _known(clause, case, ("prepeptide-locations",) + _LOADING, "prepeptide-post-origin"),
     # a feature with parts on both sides of the origin that does not cross it in strand order is dropped
     "C12-F5": lambda clause, case: _known(clause, case, ("features-same-bases", "reloaded-same-content",
-                                                         "reloaded-after-ref-repair"), "parts-against-strand"),
+                                                         "reloaded-after-ref-repair"), "parts-against-strand")
+    or _known(clause, case, ("reloaded-same-content", "reloaded-after-ref-repair"), "prepeptide-over-origin"),
     # every origin-crossing feature of the record is put into the file of an origin-spanning region,
     # also those not inside it (they then lie outside the extracted sequence)
     "C12-F6": lambda clause, case: _known(clause, case, ("write-ok", "features-same-bases") + _LOADING,
